@@ -145,7 +145,10 @@ func (c *TO0Client) ownerSign(ctx context.Context, transport Transport, guid pro
 		NonceTO0Sign: nonce,
 	}
 	alg := ov.Entries[0].Payload.Val.PreviousHash.Algorithm
-	to0dHash := alg.HashFunc().New()
+	to0dHash, err := newHash(alg)
+	if err != nil {
+		return 0, fmt.Errorf("error hashing to0d structure: %w", err)
+	}
 	if err := cbor.NewEncoder(to0dHash).Encode(to0d); err != nil {
 		return 0, fmt.Errorf("error hashing to0d structure: %w", err)
 	}
@@ -228,7 +231,11 @@ func (s *TO0Server) acceptOwner(ctx context.Context, msg io.Reader) (*to0AcceptO
 	}
 
 	// Verify to0d hash matches to0d
-	to0dHash := sig.To1d.Payload.Val.To0dHash.Algorithm.HashFunc().New()
+	to0dHash, err := newHash(sig.To1d.Payload.Val.To0dHash.Algorithm)
+	if err != nil {
+		captureErr(ctx, protocol.InvalidMessageErrCode, "")
+		return nil, fmt.Errorf("error hashing to0d structure: %w", err)
+	}
 	if err := cbor.NewEncoder(to0dHash).Encode(sig.To0d.Val); err != nil {
 		return nil, fmt.Errorf("error hashing to0d structure: %w", err)
 	}
